@@ -49,6 +49,8 @@ type seq struct {
 	shape  []string
 	failed bool
 	avoid  map[string]bool
+	// stepTag is the class of the step being executed (what a wedge is attributed to)
+	stepTag string
 }
 
 func (s *seq) viol(f finding) {
@@ -66,6 +68,7 @@ func (s *seq) allowed(tag string) bool {
 		s.e.b.Count("steps_avoided", 1)
 		return false
 	}
+	s.stepTag = tag
 	return true
 }
 
@@ -93,32 +96,22 @@ func (s *seq) onStall(what string, op *opRec) bool {
 	case "idle", "idle-late":
 		return true
 	case "wedged":
-		site := "unknown"
-		if b, ok := detail["blocked_in"].([]string); ok && len(b) > 0 {
-			sort.Strings(b)
-			site = strings.Join(uniq(b), "+")
+		site := "api"
+		if b, ok := detail["packages"].([]string); ok && len(b) > 0 {
+			site = strings.Join(b, "+")
 		}
+		s.e.b.Extra["avoid_after_wedge"] = s.stepTag
 		if op != nil {
 			detail["op"] = opDetail(op, nil)
 		}
 		detail["journal_tail"] = s.e.journalTail(30)
-		s.viol(finding{Sig: "C13:wedged:" + site, What: "handler goroutines are blocked for good in lock acquisitions (identical stacks in two dumps 3 s apart, awaited: " + what + ")", Detail: detail})
+		s.viol(finding{Sig: "C13:wedged:" + site, What: "the goroutines handling API requests are blocked for good: every goroutine inside portbase is blocked with an identical stack in three dumps 3 s apart and some wait for a mutex (awaited: " + what + ")", Detail: detail})
 	default:
-		s.e.b.Inconclusive("sequence %d of batch %d: watchdog (%s) expired waiting for %s while handlers were still running", s.no, s.e.spec.Batch, s.e.waitLim, what)
+		s.e.b.Inconclusive("sequence %d of batch %d: watchdog (%s) expired waiting for %s while handlers were still running (same stacks: %v, lock waits: %v, not blocked: %v)", s.no, s.e.spec.Batch, s.e.waitLim, what, detail["same_stacks"], detail["lock_waiting_goroutines"], detail["not_blocked"])
 	}
 	s.e.aborted = true
 	s.e.stallAt = what
 	return false
-}
-
-func uniq(xs []string) []string {
-	var out []string
-	for i, x := range xs {
-		if i == 0 || xs[i-1] != x {
-			out = append(out, x)
-		}
-	}
-	return out
 }
 
 func (s *seq) note(k string) {
@@ -279,6 +272,13 @@ func (s *seq) stepGet() {
 	}
 	s.recordOutcome(op)
 	s.e.b.Seen("get_outcomes", tag+"="+s.lastType(op))
+	if rs := s.c.snapshot(op); len(rs) == 1 && rs[0].Type == "ok" {
+		dbName, dbKey := record.ParseKey(key)
+		canon := dbName + ":" + dbKey
+		if !strings.HasPrefix(string(rs[0].Rest), canon+"|") {
+			s.viol(finding{Sig: "C13:roundtrip:wrong-key:get", What: fmt.Sprintf("get %q answered with another key: %q", canon, clip(string(rs[0].Rest), 100)), Detail: opDetail(op, nil)})
+		}
+	}
 }
 
 // stepPutOther: create/update with payloads that are not JSON objects.
@@ -339,14 +339,21 @@ func (s *seq) stepPutOther() {
 			s.recordOutcome(g)
 			s.e.b.Seen("get_outcomes", "after-"+tag+"="+s.lastType(g))
 		}
-		if s.r.Chance(1, 2) && s.allowed("insert/into-"+tag) {
+		itag := "insert/nonjson-target"
+		if strings.Contains(tag, "/json-") && !strings.HasSuffix(tag, "json-from-dsd") {
+			itag = "insert/odd-json-target"
+		} else if strings.HasSuffix(tag, "json-from-dsd") {
+			itag = "insert/json-object"
+		}
+		if s.r.Chance(1, 2) && s.allowed(itag) {
+			s.e.jwrite("Q", s.c.no, nil, "")
 			s.note("insert/" + d.Backend)
-			i := s.c.request(s.e.newOpID(s.r), "insert", key+"|{\"added\":1}", "insert/into-"+tag, d.Backend)
+			i := s.c.request(s.e.newOpID(s.r), "insert", key+"|{\"added\":1}", itag, d.Backend)
 			if !s.settle(i) {
 				return
 			}
 			s.recordOutcome(i)
-			s.e.b.Seen("insert_outcomes", "into-"+tag+"@"+d.Backend+"="+s.lastType(i))
+			s.e.b.Seen("insert_outcomes", itag+"<"+tag+"@"+d.Backend+"="+s.lastType(i))
 		}
 	}
 }
@@ -405,22 +412,37 @@ func (s *seq) stepInsert() {
 			s.expectNote(d.Name, key, m.Doc, false)
 			s.get(d, key, "get/after-insert")
 		} else {
-			// a refused insert may have been applied partially in memory
-			m.Known = false
+			// single-member bodies: a refused insert changed nothing
 			s.e.b.Seen("insert_refused", normErr(lastMsg(s.c.snapshot(op))))
+			s.get(d, key, "get/after-refused-insert")
 		}
 		return
+	}
+	if s.r.Chance(1, 3) {
+		d = s.e.w.db(vlib.Pick(s.r, "hmap", "hmsd"))
 	}
 	seeds := s.e.w.seeds[d.Name]
 	if len(seeds) == 0 {
 		return
 	}
 	sd := seeds[s.r.Intn(len(seeds))]
+	if d.Backend == "hashmap" && s.r.Chance(1, 2) {
+		for _, x := range seeds {
+			if x.Class == "struct" && s.r.Chance(1, 2) {
+				sd = x
+			}
+		}
+	}
 	body := vlib.Pick(s.r, "{\"a\":1}", "{\"n\":5,\"zz\":\"x\"}", "{\"Name\":\"changed\"}", "{\"Score\":7}", "{\"Tags\":[\"q\"]}", "{\"Labels\":{\"a\":\"b\"}}",
 		"{\"Inner\":{\"X\":1}}", "{\"Ptr\":null}", "{\"Small\":300}", "{\"Ratio\":2}", "{\"Flag\":\"no\"}", "[1,2]", "5", "", "{}", "J{\"a\":1}", "{\"sub.x\":9}", "{\"a\":{\"deep\":[1,{\"b\":2}]}}")
-	tag := "insert/seed-" + sd.Class
-	if sd.Class == "struct" {
-		tag += ":" + fieldOf(body)
+	tag := "insert/nonjson-target"
+	switch sd.Class {
+	case "struct":
+		tag = "insert/struct"
+	case "json", "secret", "crown", "expired":
+		tag = "insert/seed-" + sd.Class
+	case "json-array", "json-scalar", "json-garbage":
+		tag = "insert/odd-json-target"
 	}
 	if !s.allowed(tag) {
 		return
@@ -431,7 +453,7 @@ func (s *seq) stepInsert() {
 		return
 	}
 	s.recordOutcome(op)
-	s.e.b.Seen("insert_outcomes", tag+"="+s.lastType(op))
+	s.e.b.Seen("insert_outcomes", tag+"/"+sd.Class+":"+fieldOf(body)+"="+s.lastType(op))
 	// seeded records may be changed by this: subscriptions of this sequence that
 	// select them would be notified; the modelled subscriptions use other prefixes.
 }
@@ -664,7 +686,11 @@ func (s *seq) stepSub() {
 		s.e.keyCtr++
 		key := fmt.Sprintf("%s:%sp%04d", d.Name, q.Prefix, s.e.keyCtr)
 		raw, doc := genDoc(s.r, s.r.Intn(10))
-		if err := s.e.w.putWrapper(key, dsd.JSON, raw, nil); err == nil {
+		var mod func(m *record.Meta)
+		if s.r.Bool() {
+			mod = func(m *record.Meta) { m.Created = 1000 } // an old record: the API reports "upd"
+		}
+		if err := s.e.w.putWrapper(key, dsd.JSON, raw, mod); err == nil {
 			s.e.b.Count("privileged_writes", 1)
 			s.e.model[key] = &modelRec{Key: key, DB: d.Name, Exists: true, Known: true, Doc: doc}
 			s.expectNote(d.Name, key, doc, false)
@@ -950,6 +976,19 @@ func (s *seq) stepConcurrent() {
 		s.e.b.Count("subs_established", 1)
 		subs = append(subs, &csub{op: op, q: q})
 	}
+	// a record under the same prefix that the API itself keeps changing in place
+	stormKey := ""
+	var stormGets []*opRec
+	if s.r.Chance(2, 3) && s.allowed("concurrent/insert-storm") {
+		k := fmt.Sprintf("%s:%sstorm", d.Name, prefix)
+		op := s.c.request(s.e.newOpID(s.r), "create", k+`|J{"n":1,"s":"alpha-1","b":true,"f":1.25,"ctr":0,"pad":"","storm":true}`, "concurrent/insert-storm", d.Backend)
+		if !s.settle(op) || !s.idle() {
+			return
+		}
+		if s.lastType(op) == "success" {
+			stormKey = k
+		}
+	}
 	// writers
 	type wr struct {
 		w, i       int
@@ -1007,14 +1046,30 @@ func (s *seq) stepConcurrent() {
 			s.c.cancel(subs[victim].op, "cancel/sub")
 			s.e.b.Seen("cancel_points", "sub:concurrent")
 		}
+		if stormKey != "" {
+			for j, n := 0, s.r.Range(1, 6); j < n; j++ {
+				// the record keeps changing its length: a reader that does not
+				// exclude the writer sees a cut-off or over-long document
+				qops = append(qops, s.c.request(s.e.newOpID(s.r), "insert", fmt.Sprintf(`%s|{"ctr":%d,"pad":"%s"}`, stormKey, i*10+j, strings.Repeat("p", s.r.Intn(2)*s.r.Range(1, 300))), "concurrent/insert-storm", d.Backend))
+				s.note("insert/" + d.Backend)
+				if s.r.Bool() {
+					g := s.c.request(s.e.newOpID(s.r), "get", stormKey, "concurrent/insert-storm", d.Backend)
+					qops = append(qops, g)
+					stormGets = append(stormGets, g)
+					s.note("get/" + d.Backend)
+				}
+			}
+		}
 		if s.r.Bool() {
 			time.Sleep(time.Duration(s.r.Intn(300)) * time.Microsecond)
 		}
 	}
-	wg.Wait()
+	// (no wg.Wait(): a wedged database would block the writers, and with them the
+	// harness; idle() watches the writers too and decides a stall structurally)
 	if !s.idle() {
 		return
 	}
+	wg.Wait()
 	for _, cs := range subs {
 		if cs.cancelAt == 0 {
 			s.c.cancel(cs.op, "cancel/sub")
@@ -1026,6 +1081,17 @@ func (s *seq) stepConcurrent() {
 	s.e.b.Count("concurrent_writes", int64(len(writes)))
 	for _, op := range qops {
 		s.recordOutcome(op)
+	}
+	for _, g := range stormGets {
+		rs := s.c.snapshot(g)
+		if len(rs) != 1 || rs[0].Type != "ok" || !strings.HasPrefix(string(rs[0].Rest), stormKey+"|") {
+			continue
+		}
+		s.e.b.Count("storm_gets_checked", 1)
+		if diff := checkStormDoc(rs[0].Rest[len(stormKey)+1:]); diff != "" {
+			s.viol(finding{Sig: "C13:concurrent-insert:damaged-record:get", What: "a record that only ever received inserts of two members through the API reads back damaged while inserts are in flight: " + diff,
+				Detail: opDetail(g, nil)})
+		}
 	}
 	// decide every subscription
 	for _, cs := range subs {
@@ -1048,7 +1114,15 @@ func (s *seq) stepConcurrent() {
 				continue
 			}
 			nn++
-			_, data, ok := splitKeyData(r.Rest, "")
+			nk, data, ok := splitKeyData(r.Rest, "")
+			if ok && stormKey != "" && (nk == stormKey || strings.HasPrefix(string(r.Rest), stormKey+"|")) {
+				s.e.b.Count("storm_notifications", 1)
+				if diff := checkStormDoc(r.Rest[len(stormKey)+1:]); diff != "" {
+					s.viol(finding{Sig: "C13:concurrent-insert:damaged-record:notification", What: "a record that only ever received inserts of two members through the API arrives damaged in a notification while inserts are in flight: " + diff,
+						Detail: opDetail(cs.op, map[string]any{"notification": clip(string(r.Raw), 600)})})
+				}
+				continue
+			}
 			if !ok || len(data) < 2 {
 				continue
 			}
@@ -1125,6 +1199,39 @@ func (s *seq) stepConcurrent() {
 }
 
 func anyMap(m map[string]any) any { return m }
+
+// checkStormDoc: the storm record was created as {"n":1,"s":"alpha-1","b":true,
+// "f":1.25,"ctr":0,"pad":"","storm":true}; inserts only ever replace ctr (a number)
+// and pad (a string of p's). Whatever interleaving, a reader must see such a document.
+func checkStormDoc(data []byte) string {
+	if len(data) < 2 || data[0] != 'J' {
+		return fmt.Sprintf("data is not a JSON record: %q", clip(string(data), 120))
+	}
+	dv, err := decodeDoc(data[1:])
+	if err != nil {
+		return fmt.Sprintf("data is not valid JSON (%v): %q", err, clip(string(data), 200))
+	}
+	m, ok := dv.(map[string]any)
+	if !ok {
+		return "data is not a JSON object"
+	}
+	if _, ok := m["_meta"].(map[string]any); !ok {
+		return "no _meta section"
+	}
+	if m["storm"] != true || m["b"] != true || m["s"] != "alpha-1" || m["n"] != json.Number("1") || m["f"] != json.Number("1.25") {
+		return fmt.Sprintf("members the inserts never touched are missing or changed: %q", clip(string(data), 300))
+	}
+	if _, ok := m["ctr"].(json.Number); !ok {
+		return fmt.Sprintf("ctr is not a number: %q", clip(string(data), 200))
+	}
+	if p, ok := m["pad"].(string); !ok || strings.Trim(p, "p") != "" {
+		return fmt.Sprintf("pad is not a string of p's: %q", clip(string(data), 200))
+	}
+	if len(m) != 8 {
+		return fmt.Sprintf("document has %d members instead of 8: %q", len(m), clip(string(data), 300))
+	}
+	return ""
+}
 
 // finish cancels what is still subscribed and runs the automaton over every operation.
 func (s *seq) finish() {
